@@ -188,7 +188,7 @@ def gen_case(rng, tier):
         extra_ops.append(['set_extras', ['live', rng.randrange(64)], rng.choice(EXTRAS)])
     for _ in range(rng.randint(0, 3)):
         extra_ops.append(['set_assoc_extras', ['live', rng.randrange(64)], rng.choice(EXTRAS)])
-    for _ in range(rng.randint(0, 4)):
+    for _ in range(rng.randint(0, 8)):
         extra_ops.append(['set_defense', ['live', rng.randrange(64)], rng.randrange(16), rng.choice([0.0, 1.0, 0.5, 0.25, 0.0])])
     hist = hist + extra_ops
     return {'spec': spec if src == 'generated' else 'corelang', 'history': hist,
@@ -212,6 +212,9 @@ def _check_case(case, res, count=True):
             ls.apply(op)
         ls.compare('end of history')
     except Divergence as d:
+        if d.key.startswith('model.to_dict'):
+            # the model serialises to something else than it holds: that is what gets written to the file
+            return ('model.serialise:' + d.key.split(':', 1)[1], d.what)
         # C05's business; the model is not usable for this case
         if count:
             res.count('history-diverged(C05)')
